@@ -878,7 +878,7 @@ func (f *ndFunc) run() {
 		if why, ok := ndExempt[key]; ok && bad {
 			if !f.seen[key] {
 				f.seen[key] = true
-				f.out = append(f.out, withProps(okOb("NTTDOM", key, f.c.Rel(call.Pos()), "exempt: "+why, false), bufProps(f.fkey)...))
+				f.out = append(f.out, withProps(okOb("NTTDOM", key, f.c.Rel(call.Pos()), "exempt: "+why, false), flagNestProps(f.fkey)...))
 			}
 			return
 		}
@@ -901,12 +901,12 @@ func (f *ndFunc) run() {
 			}
 			f.out = append(f.out, withProps(violOb("NTTDOM", key, f.c.Rel(call.Pos()),
 				fmt.Sprintf("%s: %s expects a value in the %s domain, but %s is already in the %s domain%s%s [facts here: %s]",
-					f.fkey, what, dom[need], exprString(src), dom[need^('N'^'C')], via, origin, under)), bufProps(f.fkey)...))
+					f.fkey, what, dom[need], exprString(src), dom[need^('N'^'C')], via, origin, under)), flagNestProps(f.fkey)...))
 			return
 		}
 		if !f.seen[key] {
 			f.seen[key] = true
-			f.out = append(f.out, withProps(okOb("NTTDOM", key, f.c.Rel(call.Pos()), "source domain known and the one the transform expects", true), bufProps(f.fkey)...))
+			f.out = append(f.out, withProps(okOb("NTTDOM", key, f.c.Rel(call.Pos()), "source domain known and the one the transform expects", true), flagNestProps(f.fkey)...))
 		}
 	}
 
@@ -1299,13 +1299,13 @@ func (f *ndFunc) run() {
 					}
 					f.out = append(f.out, withProps(violOb("NTTDOM", key, f.c.Rel(pos),
 						fmt.Sprintf("%s %s with %s in the %s domain while %s.IsNTT says %s (on the path where %s)",
-							f.fkey, ndLabelVerb(label), p, dom[ndResolve(bad[0], both)], owner, dom[ndResolve(bad[1], both)], factsString(both))), bufProps(f.fkey)...))
+							f.fkey, ndLabelVerb(label), p, dom[ndResolve(bad[0], both)], owner, dom[ndResolve(bad[1], both)], factsString(both))), flagNestProps(f.fkey)...))
 				}
 				continue
 			}
 			if !f.seen[key] && !f.seen[key+"!"] {
 				f.seen[key] = true
-				f.out = append(f.out, withProps(okOb("NTTDOM", key, f.c.Rel(pos), "the domain of the polynomial and the IsNTT flag of its owner agree on every decided path", true), bufProps(f.fkey)...))
+				f.out = append(f.out, withProps(okOb("NTTDOM", key, f.c.Rel(pos), "the domain of the polynomial and the IsNTT flag of its owner agree on every decided path", true), flagNestProps(f.fkey)...))
 			}
 		}
 	}
@@ -1911,13 +1911,13 @@ func (f *ndFunc) mixCheck(s *ndState, call *ast.CallExpr, name string, exprs []a
 				where = "no condition"
 			}
 			f.out = append(f.out, withProps(violOb("NTTDOM", key, f.c.Rel(call.Pos()),
-				fmt.Sprintf("%s: %s combines %s and %s, one in the NTT domain and the other in the coefficient domain (on the path where %s)", f.fkey, name, exprString(exprs[0]), exprString(exprs[1]), where)), bufProps(f.fkey)...))
+				fmt.Sprintf("%s: %s combines %s and %s, one in the NTT domain and the other in the coefficient domain (on the path where %s)", f.fkey, name, exprString(exprs[0]), exprString(exprs[1]), where)), flagNestProps(f.fkey)...))
 		}
 		return
 	}
 	if !f.seen[key] && !f.seen[key+"!"] {
 		f.seen[key] = true
-		f.out = append(f.out, withProps(okOb("NTTDOM", key, f.c.Rel(call.Pos()), "both inputs of the element-wise operation are in the same domain on every decided path", true), bufProps(f.fkey)...))
+		f.out = append(f.out, withProps(okOb("NTTDOM", key, f.c.Rel(call.Pos()), "both inputs of the element-wise operation are in the same domain on every decided path", true), flagNestProps(f.fkey)...))
 	}
 }
 
